@@ -15,14 +15,14 @@ CHECKS = {
          "Same exhaustive exploration as C01, judged by the per-partition order oracle: offsets of successes increase with submission order, first copies in the simulated log are in submission order.",
          PNOTE, "§6 C02"),
  "C04": (MC, GXT,
-         "Same exhaustive exploration as C01, judged by: reported (partition, offset) addresses a log entry equal to the submitted message; everything on the wire/in the log is a submitted message in the partition the partitioner chose.",
-         PNOTE + " Payload/codec/version matrix still limited to small payloads in this revision.", "§6 C04"),
+         "Same exhaustive exploration as C01 plus a format x codec x composition family (produce request versions for message v0/v1 and record batches x none/gzip/snappy/lz4/zstd x 1-2 partitions per request x key/header shapes x sync/async API, <=1 deviation each), judged by: reported (partition, offset) addresses a log entry equal to the submitted message (key, value, headers); every request on the wire is decodable by the independent broker-side reader and carries only submitted messages in the partition the partitioner chose.",
+         PNOTE + " Payloads, keys and headers come from a small alphabet (<= 40 bytes).", "§6 C04"),
  "C05": (MC, GXT,
          "Idempotent scenarios against a sequence-enforcing simulated broker (pid/epoch/sequence rules of brokers >= 1.0, last-5-batches dedup), all executions with <= B deviations; oracle: no duplicate in any log, success => exactly once in log, sequence continuity per (partition, epoch), re-sent batch identical.",
          PNOTE, "§6 C05"),
  "C18": (MC, GXT,
          "Producer scenarios with a chain of counting + header-appending (+ panicking) interceptors, all executions with <= B deviations; oracle: exactly one invocation per submitted message per interceptor in configuration order, none for internal markers, one application visible in the log.",
-         PNOTE + " Consumer half (slow-reader path) is added with the consumer rig.", "§6 C18"),
+         PNOTE + " Consumer half: slow-reader scenarios of the consumer rig (MaxProcessingTime expiries inside a batch).", "§6 C18"),
  "C17": (EX, "bounded-exhaustive enumeration of (constructor/options, injected hash value, partition count, key kind) through the real partitioners in attributed child processes, against an independent reference",
          "All listed hash boundary values plus 2^16 (quick) / ~10^6 (thorough) structured hash values x partition counts 1..17 and 2^31-1 x every constructor/option subset x key kinds, plus all round-robin count sequences up to length 6/8; range, Java-reference equality, consistency, fallback routing, manual, cycle oracles. Producer-routing half: every partitioner x key pattern x every leaderless subset of a 3-partition topic through the real client + producer in synctest bubbles (default schedule; all 1-deviation schedules in thorough), judged against the recorded choices of the wrapped partitioner (offered set = all partitions for keyed consistency-requiring messages, writable ones otherwise; illegal choice or no partition => error and nothing on the wire).",
          "'all keys' is reduced to hash values through WithCustomHashFunction and short real keys; math/rand trusted; white-box bridge setters for cursors/fallbacks.", "§6 C17"),
